@@ -36,11 +36,30 @@ def check(out: Outcome, cls: str, p: dict, xs: list, runners: list) -> None:
     r = dets.Runner("a", cls, p)
     if r.det is None:
         return
-    sc = scale(xs)
+    sc = scale([v for v in xs if v != "r"])
     fired = False
-    for t, (x, (g, drift)) in enumerate(zip(xs, spec(cls, fp, xs)), 1):
+    full = xs
+    segs, cur = [], []
+    for v in full:          # a reset restarts the recurrence on the values that follow
+        if v == "r":
+            segs.append(cur); cur = []
+        else:
+            cur.append(v)
+    segs.append(cur)
+    steps = []
+    for si, seg in enumerate(segs):
+        if si:
+            steps.append(("r", None, None))
+        steps += [(x, g, d) for x, (g, d) in zip(seg, spec(cls, fp, seg))]
+    t = 0
+    for k, (x, g, drift) in enumerate(steps):
+        if x == "r":
+            r.reset()
+            t = 0
+            continue
+        t += 1
         r.update(x)
-        rep = {"class": cls, "params": p, "stream": xs[:t], "step": t, "kind": "spec"}
+        rep = {"class": cls, "params": p, "stream": full[: k + 1], "step": t, "kind": "spec"}
         if abs(float(r.det.sum_) - g) > 1e-9 * sc * t:
             out.violation(f"{cls}: statistic {float(r.det.sum_)!r} differs from the recurrence value {g!r} at step {t}", rep)
             break
@@ -52,7 +71,7 @@ def check(out: Outcome, cls: str, p: dict, xs: list, runners: list) -> None:
             out.violation(f"{cls}: drift={bool(r.det.drift)} at step {t}, the rule (t >= min and g > lambda) gives {drift}", rep)
             break
     runners.append(r)
-    out.case({"class": cls, "params": p, "n": len(xs), "h": hash(tuple(xs)) & 0xFFFFFF}, nontrivial=fired)
+    out.case({"class": cls, "params": p, "n": len(full), "h": hash(tuple(full)) & 0xFFFFFF}, nontrivial=fired)
 
 
 def check_shift(out: Outcome, cls: str, p: dict, xs: list, c: float, runners: list) -> None:
@@ -107,7 +126,11 @@ def run(out: Outcome) -> None:
             xs = gen.real_stream(rng, rng.randint(5, 400 if thorough else 150))
             if rng.random() < 0.3:
                 xs = [float(v) for v in gen.bernoulli_stream(rng, len(xs))]
-            check(out, cls, p, xs, runners)
+            ys = list(xs)
+            if rng.random() < 0.4:
+                for _ in range(rng.randint(1, 2)):
+                    ys.insert(rng.randint(1, len(ys)), "r")
+            check(out, cls, p, ys, runners)
             check_shift(out, cls, p, xs, rng.choice([1.0, -4.0, 1024.0, 0.1, 3.3, -1e3]), runners)
             check_mono(out, cls, p, xs, rng.choice([0.0, 0.1, 1.0, 5.0]), runners)
     corr.compare_batch(out, runners)
